@@ -1696,6 +1696,11 @@ def string_assembly_rule(prog, res, rule, g2):
             a = f.nodes[f.strip(n['args'][0], 'all')]
             pv = g.vertex_of.get(n['id'])
             if a['k'] == 'DeclRefExpr' and a['decl'].get('dk') == 'local':
+                # the store must not depend on what the characters are: a value that is blank (or empty after trimming) is still a value -
+                # the dimensions say how many strings there are, and the writer indexes them
+                for l_, op_, r_, _x in _IS.facts_at(f, Rf, n['id']):
+                    if l_ == 'local:%s.size' % a['decl'].get('name') and str(r_) == '0' and op_ in ('>', '!='):
+                        bad = 'the string is stored at %s only when it is not empty after trimming: a blank value is dropped although the dimensions declare it (no string for a declared width)' % f.loc(n['id'])
                 if not trimmed_local(f, a['decl']['id'], pv):
                     bad = 'string pushed at %s without trailing-space trimming' % f.loc(n['id'])
                     continue
@@ -1795,6 +1800,75 @@ def numeric_payload_rule(prog, res, rule='numeric-payload'):
         else:
             res.ok(rule, inst, f.loc(), 'no string reader on the numeric path', function=f.sig, expr='readString-in-numeric@%s' % inst, nontrivial=False)
     res.minimum('numeric readParam overloads', n, 2)
+    # ... and stay as decoded: Parameter::read hands its value vectors to the readers and does not touch the elements afterwards
+    pr = prog.fn('ezc3d::ParametersNS::GroupNS::Parameter::read', nparams=2)
+    fam = [pr] + [h for h, _s in _helper_family(prog, [pr]) if h is not pr and (h.rec.get('internal') or '(anonymous namespace)' in h.qname or h.cls == pr.cls)]
+    touched = None
+    unread_touch = None
+    for h in fam:
+        Rh = Renderer(h)
+        for nd in h.nodes:
+            lhs = None
+            if nd['k'] == 'CompoundAssignOperator' or (nd['k'] == 'BinaryOperator' and nd.get('op') == '=') or (nd['k'] == 'UnaryOperator' and nd.get('op') in ('++', '--')):
+                lhs = nd['ch'][0]
+            elif nd['k'] == 'CXXOperatorCallExpr' and nd.get('op') in ('=', '+=', '-=', '*=', '/=') and nd.get('args'):
+                lhs = nd['args'][0]
+            if lhs is None:
+                continue
+            lt = Rh.render(lhs)
+            if h is pr and re.match(r'^this\._param_data_(int|float)\[', lt):
+                plain = (nd['k'] == 'BinaryOperator' and nd.get('op') == '=') or (nd['k'] == 'CXXOperatorCallExpr' and nd.get('op') == '=')
+                rhs_ = (nd['ch'][1] if nd['k'] == 'BinaryOperator' else nd['args'][1]) if plain else None
+                rt = Rh.render(rhs_) if rhs_ is not None else ''
+                if plain and '_param_data_' not in rt:
+                    # an element filled in place (from a reader, a constant ...): not a rewrite of a decoded value
+                    if not any(h.nodes[x]['k'] == 'CXXMemberCallExpr' and h.nodes[x]['callee']['name'] in codec.READERS for x in h.descendants(rhs_)):
+                        unread_touch = (h, nd['id'], lt)
+                    continue
+                touched = (h, nd['id'], lt)
+    if touched:
+        res.viol(rule, 'Parameter::read keeps the numeric values as decoded', touched[0].loc(touched[1]), 'element %s is rewritten after the payload was read: the loaded value is no longer the value the file encodes' % touched[2],
+                 function=pr.sig, expr='payload-rewritten', sure=True)
+    elif unread_touch:
+        res.undecided(rule, 'Parameter::read keeps the numeric values as decoded', unread_touch[0].loc(unread_touch[1]), 'element %s is assigned in Parameter::read from something that is not a reader [shape not read by the rule]' % unread_touch[2],
+                      function=pr.sig, expr='payload-rewritten')
+    else:
+        res.ok(rule, 'Parameter::read keeps the numeric values as decoded', pr.loc(), 'no element of _param_data_int / _param_data_float is assigned in Parameter::read', function=pr.sig, expr='payload-rewritten@0', nontrivial=False)
+
+
+
+def char_range_widening_rule(prog, res, rule='char-range'):
+    """raw bytes held in plain `char` (signed here) that are copied as a range into a container of a wider unsigned type are
+    sign-extended: a byte of 128..255 becomes a number near 2^64.  Element-wise decoding through hex2uint / unsigned char is the
+    library's way; the range forms (assign / insert / construction from two char iterators) are the ones that convert silently."""
+    n = 0
+    UNS = ('unsigned long', 'unsigned int', 'unsigned short', 'size_t', 'unsigned long long', 'std::size_t')
+    for f in prog.repo_funcs():
+        if f.body is None or f.implicit:
+            continue
+        for c in f.calls():
+            k = c['k']
+            cal = c.get('callee', {})
+            dst_t = None
+            args = f.call_args(c) if k not in ('CXXConstructExpr', 'CXXTemporaryObjectExpr') else c.get('args', [])
+            if k == 'CXXMemberCallExpr' and cal.get('name') in ('assign', 'insert') and str(cal.get('classq', '')) == 'std::vector' and c.get('obj') is not None:
+                dst_t = str(f.nodes[f.strip(c['obj'], 'all')].get('t', ''))
+            elif k in ('CXXConstructExpr', 'CXXTemporaryObjectExpr') and str(cal.get('class', '')).startswith('std::vector'):
+                dst_t = str(c.get('t', '') or cal.get('class', ''))
+            if not dst_t:
+                continue
+            m = re.search(r'std::vector<([^,>]+)', dst_t)
+            if not m or m.group(1).strip() not in UNS:
+                continue
+            its = [str(f.nodes[f.strip(a, 'noop')].get('t', '')) for a in args]
+            chars = [t_ for t_ in its if re.search(r'__normal_iterator<(const )?char \*', t_) or re.match(r'^(const )?char \*$', t_)]
+            if len(chars) >= 2:
+                n += 1
+                res.viol(rule, '%s: range of char into %s' % (f.name, m.group(0) + '>'), f.loc(c['id']), 'a range of plain `char` (signed) is converted element by element into %s: every byte of 128..255 is sign-extended '
+                         '(255 becomes 18446744073709551615), so a count or size stored in one unsigned byte is misread above 127' % m.group(1).strip(), function=f.sig, expr='char-range@%s' % f.name, sure=True)
+    if not n:
+        res.ok(rule, 'no range of plain char is converted into a container of unsigned integers', 'src/', function='', expr='char-range', nontrivial=False)
+    return n
 
 
 def primitive_read_rule(prog, res, rule='primitive-read'):
@@ -1961,6 +2035,59 @@ def id_of_position(f, lp, call_item, arg):
     return 'ok' if vals == [-(k + 1) for k in range(4)] else 'wrong'
 
 
+def _top_split(cond, op):
+    """operands of a top-level chain of `op` in a rendered condition (outer parentheses removed)"""
+    c = cond.strip()
+    while c.startswith('(') and c.endswith(')'):
+        depth, ok = 0, True
+        for i_, ch in enumerate(c):
+            depth += ch == '('
+            depth -= ch == ')'
+            if depth == 0 and i_ < len(c) - 1:
+                ok = False
+                break
+        if not ok:
+            break
+        c = c[1:-1].strip()
+    parts, depth, cur, i_ = [], 0, '', 0
+    while i_ < len(c):
+        ch = c[i_]
+        depth += ch == '('
+        depth -= ch == ')'
+        if depth == 0 and c.startswith(' %s ' % op, i_):
+            parts.append(cur.strip())
+            cur = ''
+            i_ += len(op) + 2
+            continue
+        cur += ch
+        i_ += 1
+    parts.append(cur.strip())
+    out = []
+    for p_ in parts:
+        out.extend(_top_split(p_, op) if (p_.startswith('(') and p_ != c and len(parts) > 1 and ' %s ' % op in p_) else [p_])
+    return out
+
+
+def _extra_group_condition(cond, guards, skips, then_writes, else_writes):
+    """the record of a group is written under `named && X` (or skipped under `unnamed || X'`) with X not about the name: -> X, else None"""
+    def norm(x):
+        x = x.strip()
+        return x
+    if then_writes and not else_writes:
+        parts = _top_split(cond, '&&')
+        named = [p_ for p_ in parts if p_ in guards or '(%s)' % p_ in guards or p_.strip('()') in [g_.strip('()') for g_ in guards]]
+        rest = [p_ for p_ in parts if p_ not in named]
+        if len(parts) >= 2 and named and rest and all('_name' not in r_ for r_ in rest):
+            return ' && '.join(rest)
+    if else_writes and not then_writes:
+        parts = _top_split(cond, '||')
+        unnamed = [p_ for p_ in parts if p_ in skips or p_.strip('()') in [g_.strip('()') for g_ in skips]]
+        rest = [p_ for p_ in parts if p_ not in unnamed]
+        if len(parts) >= 2 and unnamed and rest and all('_name' not in r_ for r_ in rest):
+            return 'not (%s)' % ' || '.join(rest)
+    return None
+
+
 def parameters_writer_rule(prog, res, rule='parameters-write'):
     spec = load_spec()
     f = prog.fn('ezc3d::ParametersNS::Parameters::write', nparams=1)
@@ -1991,6 +2118,11 @@ def parameters_writer_rule(prog, res, rule='parameters-write'):
         elif len(inner) == 1 and inner[0][0] == 'alt' and inner[0][1] in skips and not io_only(inner[0][2]):
             ck.ok('groups.placeholder-guard', ck.where(inner[0]), 'unnamed placeholder groups are skipped (a zero-length name would terminate the section)')
             inner = io_only(inner[0][3])
+        elif len(inner) == 1 and inner[0][0] == 'alt' and '_name' in str(inner[0][1]) and _extra_group_condition(str(inner[0][1]), guards, skips, bool(io_only(inner[0][2])), bool(io_only(inner[0][3]))):
+            extra = _extra_group_condition(str(inner[0][1]), guards, skips, bool(io_only(inner[0][2])), bool(io_only(inner[0][3])))
+            ck.bad('groups.placeholder-guard', ck.where(inner[0]), 'a group record is written only when the group is named AND %s: a named group for which that fails is left out of the saved file '
+                   '(only unnamed placeholders may be skipped)' % extra)
+            inner = io_only(inner[0][2]) or io_only(inner[0][3])
         elif len(inner) == 1 and inner[0][0] == 'alt' and '_name' in str(inner[0][1]):
             ck.shape('groups.placeholder-guard', ck.where(inner[0]), 'the records are written under the condition %s, which the rule does not tabulate' % str(inner[0][1])[:120])
             inner = io_only(inner[0][2]) or io_only(inner[0][3])
